@@ -249,3 +249,14 @@ Proof.
   destruct (to_frac (NFloat m e)) as [n d]. rewrite Z.mul_1_r, Pos.mul_1_r, H.
   eexists. split; [reflexivity | apply num_eqb_refl].
 Qed.
+
+Theorem alt_forms_value_spec v uw u l n0 rest forms :
+  py_lower uw = u -> iter_conversions_from u = (l, None) ->
+  sorted_conversions l = (frac_one, n0) :: rest ->
+  value_ok v -> scale_forms v rest = Ok forms ->
+  alt_forms v uw = Ok ((v, uw) :: forms) /\
+  Forall2 (fun f p => nmul v (fst p) = NOk (fst f) /\ snd f = snd p) forms rest.
+Proof.
+  intros H1 H2 H3 H4 H5.
+  exact (conj (alt_forms_value v uw u l n0 rest forms H1 H2 H3 H4 H5) (scale_forms_spec v rest forms H5)).
+Qed.
